@@ -58,7 +58,8 @@ impl Decoder for ZmqCodec {
         #[cfg(feature = "verif-hooks")]
         let _verif_depth = crate::__verif::depth_enter();
         if src.len() < self.waiting_for {
-            src.reserve(self.waiting_for - src.len());
+            // Do not reserve `waiting_for` bytes here: for a frame body that is a length the
+            // peer merely declared. The reader grows the buffer as bytes actually arrive.
             return Ok(None);
         }
         match self.state {
